@@ -25,7 +25,7 @@ def twin_stream(run, prop, tier, seed):
         "C10": "generated programs vs the twin in which every .if is replaced by the statements of the selected branch and every .for by one block per iteration binding the variable; flattened writes and labels outside loop bodies must be equal",
     }
     s = core.Stream(names[prop], what[prop] + "; non-trivial = distinct (rom, transformation, structure kinds used)")
-    n = 120 if tier == "quick" else 2000
+    n = 300 if tier == "quick" else 2000
     feats = {"C08": {}, "C09": {"macros": True}, "C10": {}}[prop]
     progs = pipeline.gen_batch(rng, run.drv, n, features=feats)
     pairs = []
